@@ -78,6 +78,13 @@ def theorem_domain(rep, model, modules):
                     rep.bump('theorem_domain_functions_outside')
                 else:
                     raise RuntimeError('printdecls: ' + a[:200])
+            elif d[0] == 'fwd':
+                a = model.ask('printdecls', [d])
+                if a.startswith('ok '):
+                    out.append(d)
+                    rep.bump('theorem_domain_forward_declarations_inside')
+                else:
+                    rep.bump('theorem_domain_forward_declarations_outside')
             elif d[0] == 'var':
                 a = model.ask('printdecls', [d])
                 if a.startswith('ok '):
@@ -185,8 +192,9 @@ def run(rep, tier, seed, replay=None, proof_ok=True):
                 g = G.Gen(r, G.Profile(p_template=0.0, p_default=0.0, p_keyword_name=0.05, max_args=1 + k % 7,
                                        max_type_depth=1 + k % 8, special_types=(k % 3 == 0)))
                 used = set()
-                fl = [G.a_decl(g.function(used)) if r.random() < 0.75 else
-                      ['var', G.a_ty(g.any_type(1 + k % 8)), 'v%d_%d' % (k, j), []] for j in range(1 + r.randrange(12))]
+                fl = [G.a_decl(g.function(used)) if r.random() < 0.65 else
+                      ['var', G.a_ty(g.any_type(1 + k % 8)), 'v%d_%d' % (k, j), []] if r.random() < 0.6 else
+                      ['fwd', r.random() < 0.4, ['tn', [], 'F%d_%d' % (k, j), []], []] for j in range(1 + r.randrange(12))]
                 # wrap runs of them into namespaces nested up to 12 deep
                 for lvl in range(k % 13):
                     cut = r.randrange(len(fl) + 1)
